@@ -427,8 +427,11 @@ func (sm *SealManager) performRootRotation(ctx context.Context, ns *namespace.Na
 
 	if isShamirSeal {
 		if len(newSealKey) > 0 {
+			// The barrier of a namespace keeps its metadata below the
+			// namespace's own prefix (as Initialize does); the bare path
+			// is the root barrier's copy of the seal key.
 			err := b.Put(ctx, &logical.StorageEntry{
-				Key:   barrier.ShamirKekPath,
+				Key:   NamespaceStoragePathPrefix(ns) + barrier.ShamirKekPath,
 				Value: newSealKey,
 			})
 			if err != nil {
